@@ -760,3 +760,37 @@ def callback_guard(R, rule, fn, inline=()):
         return ck.broken(rule, fn + ':callbacks', R.where(fn), 'no call through an area callback found (anchor vanished)')
     ck.verdict(bad is None, rule, fn + ':callbacks', R.where(fn),
                'every call through an area callback (%d on all paths) follows a test that the callback exists' % ncall if bad is None else bad)
+
+
+def refusals_leave_no_trace(R, rule, fns, success_name='REG_ACCESS_SUCCESS'):
+    """Every property of the register table is stated for an operation GIVEN the table: what a request is answered depends
+    on the table's description and content, not on which requests were made before.  An operation that REFUSES a request
+    (a constant result code other than success) must therefore leave nothing behind in the table: no store into an
+    object the table parameter leads to (a memo of the window just examined, a cursor to resume from, a last-error field)
+    on a refusing path - such a field is what a later call reads, and it then describes a request that was never granted.
+    A memo written only once the request was granted is not this rule's business (it is judged by the walk and scan rules
+    that read the fields it shortcuts).  Helpers newer than the confirmed function table are looked through."""
+    ok = R.E.get(success_name)
+    for fn in fns:
+        ps = R.paths(fn, rule)
+        if ps is None:
+            continue
+        bad = None
+        nref = 0
+        for p in ps:
+            if p.end != 'return' or p.ret is None or p.ret[0] != 'struct':
+                continue
+            code = dict(p.ret[2]).get('code')
+            if code is None or not sym.is_c(strip_cast(code)) or strip_cast(code)[1] == ok:
+                continue
+            nref += 1
+            st = [e for e in p.stores() if sym.rooted_at(e.name, T)]
+            if st and bad is None:
+                bad = ('the request is refused (code %d) under {%s}, yet the table keeps %s := %s (%s): a later request reads what this one left behind - '
+                       'the answer to a request then depends on the requests made before it'
+                       % (strip_cast(code)[1], '; '.join(sym.fmt(c) for c in p.cond_terms()[-4:]), sym.fmt(st[0].name), sym.fmt(st[0].args[0]), st[0].where()))
+        if nref == 0:
+            R.ck.broken(rule, fn + ':no-trace', R.where(fn), 'no path with a constant refusing result found')
+        else:
+            R.ck.verdict(bad is None, rule, fn + ':no-trace', R.where(fn),
+                         '%d refusing paths store nothing into the table' % nref if bad is None else bad)
